@@ -67,4 +67,10 @@ Spec == Init /\ [][Next]_vars
 
 Bounded == \A k \in DOMAIN stack : Len(stack[k]) <= N + 1          \* termination, as safety
 Correct == out # "walking" => out \in Expected(Dirs, Edges, 1, foreign, onefs)
+
+(* growth: termination as a liveness property under weak fairness (Bounded is its safety shadow), and the
+   shape of every step: the verdict is written once, the scenario never *)
+FairSpec == Spec /\ WF_vars(Next)
+Terminates == <>(out # "walking")
+VerdictOnce == [][out = "walking" /\ UNCHANGED <<links, ignored, foreign, onefs, beyond>>]_vars
 =============================================================================
